@@ -42,6 +42,8 @@ func TestVerif(t *testing.T) {
 		verifRA(t, r, out, "ra4")
 	case "C14":
 		verifC14Parsed(t, r, out)
+	case "C16":
+		verifC16Parsed(t, r, out)
 	default:
 		t.Fatalf("unknown VERIF_PROP %q for package config", prop)
 	}
@@ -1594,4 +1596,26 @@ func verifC14Parsed(t *testing.T, r *vfh.Rand, out *vfh.Out) {
 		}
 		out.Line(c.String(), impl.String())
 	}
+}
+
+// verifC16Parsed: the parser's clause of C16 — a deprecated prefix or route is accepted only with
+// finite lifetimes (and preferred <= valid): every combination of the lifetime spellings for
+// deprecated and non-deprecated stanzas, judged by the configuration model (`cfg`).
+func verifC16Parsed(t *testing.T, r *vfh.Rand, out *vfh.Out) {
+	lts := []*string{nil, sp(""), sp("auto"), sp("infinite"), sp("1h"), sp("30m"), sp("4294967295s"), sp("4294967294s"), sp("0s"), sp("1s")}
+	for _, dep := range []bool{true, false} {
+		for _, v := range lts {
+			for _, pr := range lts {
+				i := gIface{name: "eth0", advertise: true, prefixes: []gPrefix{{prefix: "2001:db8::/64", valid: v, preferred: pr, deprecated: dep}}}
+				c02Case(t, out, gConfig{ifaces: []gIface{i}})
+				i = gIface{name: "eth0", advertise: true, prefixes: []gPrefix{{prefix: "::/64", valid: v, preferred: pr, deprecated: dep}}}
+				c02Case(t, out, gConfig{ifaces: []gIface{i}})
+			}
+			i := gIface{name: "eth0", advertise: true, routes: []gRoute{{prefix: "2001:db8:1::/48", lifetime: v, deprecated: dep}}}
+			c02Case(t, out, gConfig{ifaces: []gIface{i}})
+			i = gIface{name: "eth0", advertise: true, routes: []gRoute{{prefix: "::/0", lifetime: v, deprecated: dep}}}
+			c02Case(t, out, gConfig{ifaces: []gIface{i}})
+		}
+	}
+	_ = r
 }
